@@ -6,7 +6,9 @@ package tcplistener
 // connection counts as ended), C08 (flush timing), C18 (stop closes the socket).
 
 import (
+	"net"
 	"sync"
+	"time"
 
 	"github.com/relex/gotils/channels"
 	"github.com/relex/gotils/logger"
@@ -21,6 +23,8 @@ type verifRecvSink struct {
 	flushes       int
 	closed        bool
 	acceptedAfter bool
+	conn          *net.TCPConn
+	flushAfter    []int // number of Read calls made when each Flush happened
 }
 
 func (s *verifRecvSink) Accept(message []byte) {
@@ -30,7 +34,13 @@ func (s *verifRecvSink) Accept(message []byte) {
 	s.records = append(s.records, string(message))
 	s.sinceFlush++
 }
-func (s *verifRecvSink) Flush() { s.flushes++; s.sinceFlush = 0 }
+func (s *verifRecvSink) Flush() {
+	s.flushes++
+	s.sinceFlush = 0
+	if s.conn != nil {
+		s.flushAfter = append(s.flushAfter, fakenet.Reads(s.conn))
+	}
+}
 func (s *verifRecvSink) Close() {
 	sym.Assert(s.sinceFlush == 0, "every record read from the connection has been flushed to the next stage before the sink is closed")
 	s.closed = true
@@ -78,7 +88,11 @@ func verifConnScenario() {
 	l.taskCounter.Add(1)
 	go l.runConnection(logger.Root(), conn, 5)
 	if !byEOF {
-		sym.Yield() // the handler runs until it blocks in Read, then the stop request arrives
+		// the stop request arrives once the client has nothing more to send and the handler is blocked in Read
+		for !fakenet.Drained(conn) {
+			time.Sleep(100 * time.Millisecond)
+		}
+		sym.Yield()
 		stop.Signal()
 	}
 	l.taskCounter.Wait() // deadlock = the connection handler does not end
@@ -127,3 +141,68 @@ func VerifC08_ConnectionFlushTiming() { verifConnScenario() }
 //verif:reach client-closed stopped
 //verif:paths 100000
 func VerifC18_ConnectionStops() { verifConnScenario() }
+
+// VerifC08_ConnectionMultiLine: a multi-line record whose lines arrive in two
+// reads, between single-line records, with symbolic pauses (0 or 1.5 flush
+// intervals of virtual time) before each fragment: (a) the handler flushes
+// only after a read that timed out or that renewed the read deadline (the
+// periodic tick) - never between two reads that no tick separates; (b) when no
+// tick falls between the two fragments the continuation line stays attached.
+//
+//verif:native off
+//verif:preempt 0
+//verif:delays 0
+//verif:clock virtual
+//verif:reach whole ticked
+//verif:paths 100000
+func VerifC08_ConnectionMultiLine() {
+	multi := []byte("<>m1\n c\n")
+	cut := 1 + sym.Choice("cut", len(multi)-1)
+	pause := func(name string) time.Duration {
+		return []time.Duration{0, 750 * time.Millisecond}[sym.Choice(name, 2)]
+	}
+	script := []fakenet.Event{
+		{Data: []byte("<>a1\n")},
+		{Data: []byte("<>z9\n"), Delay: pause("pauseBeforeZ")},
+		{Data: append([]byte{}, multi[:cut]...), Delay: pause("pauseBeforeFragment1")},
+		{Data: append([]byte{}, multi[cut:]...), Delay: pause("pauseBeforeFragment2")},
+		{Data: []byte("<>e5\n")},
+		{EOF: true},
+	}
+	stop := channels.NewSignalAwaitable()
+	conn := fakenet.NewConn(script)
+	sink := &verifRecvSink{conn: conn}
+	l := &tcpLineListener{logger: logger.Root(), testRecord: verifToyStart, receiver: &verifRecvFactory{sink},
+		stopRequest: stop, stopTimeout: channels.NewSignalAwaitable(), taskCounter: &sync.WaitGroup{}}
+	l.taskCounter.Add(1)
+	go l.runConnection(logger.Root(), conn, 5)
+	l.taskCounter.Wait()
+	log := fakenet.ReadLog(conn)
+	sym.Assert(len(log) == len(script), "one read per scripted event")
+	tickBetweenFragments := false
+	for _, after := range sink.flushAfter {
+		if after >= len(script) {
+			continue // the final flush at the end of the connection
+		}
+		last := log[after-1]
+		sym.Assert(last.Timeout || last.Renewed, "a flush happens only after a read that timed out or renewed the read deadline (the periodic tick)")
+		if after == 3 {
+			tickBetweenFragments = true
+		}
+	}
+	if !tickBetweenFragments {
+		found := false
+		for _, r := range sink.records {
+			if r == "<>m1\n c" {
+				found = true
+			}
+		}
+		sym.Assert(found, "continuation lines stay attached to their record when no flush tick separates the reads")
+		sym.Assert(len(sink.records) == 4, "every record is delivered once")
+		sym.Reach("whole")
+	} else {
+		sym.Reach("ticked")
+	}
+	sym.Assert(len(sink.records) >= 3 && sink.records[0] == "<>a1" && sink.records[1] == "<>z9" && sink.records[len(sink.records)-1] == "<>e5",
+		"the single-line records around it are delivered complete and in order")
+}
